@@ -338,7 +338,8 @@ static int shapes_null(struct shape *out)
 }
 static void collect_shapes(struct shape **out, int *n, int with_rs, int with_xor, int with_isa)
 {
-    struct shape *sh = malloc(sizeof(struct shape) * 2000); int c = 0;
+    struct shape *sh = malloc(sizeof(struct shape) * 2200); int c = 0;
+    shapes_with_m0 = (int)vh_opt("m0", 1);
     if (with_rs) c += shapes_km(sh + c, EC_BACKEND_LIBERASURECODE_RS_VAND, 32);
     if (with_xor) c += shapes_xor(sh + c);
     if (with_isa) { c += shapes_km(sh + c, EC_BACKEND_ISA_L_RS_VAND, 32); c += shapes_km(sh + c, EC_BACKEND_ISA_L_RS_CAUCHY, 32); }
